@@ -216,7 +216,7 @@ pub fn is_ctx_op(name: &str) -> bool {
 }
 
 fn o_needs_prepared(op: &Op) -> bool {
-    op.k == "miller"
+    op.k == "miller" || op.k == "x_cb_pairing"
 }
 
 fn view_key(plan: &SchedPlan, op: &Op) -> String {
@@ -1162,7 +1162,7 @@ const FAMS: &[Fam] = &[
             _ => Op::new("pairing_multi", &[r.below(6), r.below(6), r.below(6)]),
         },
     },
-    Fam { name: "expected_panic", cost: 100, gen: |r, _| match r.below(3) { 0 => gop("x_pip_topbit", &[r.below(3), r.below(9)], r), 1 => Op::new("x_xmd_long", &[]), _ => Op::new("x_multi_short", &[]) } },
+    Fam { name: "expected_panic", cost: 100, gen: |r, _| match r.below(6) { 0 => gop("x_pip_topbit", &[r.below(3), r.below(9)], r), 1 => Op::new("x_xmd_long", &[]), 2 => Op::new("x_multi_short", &[]), 3 => Op::new("x_cb_pairing", &[r.below(3), r.below(1000)]), _ => gop("x_cb", &[r.below(5), r.below(1000)], r) } },
 ];
 
 const WNAF_FAMS: &[&str] = &["mul", "wnaf_bs", "wnaf_sb", "wnaf_multi", "wnaf_half", "wnaf_view", "wnaf_raw", "rec", "pre3", "pre256"];
